@@ -169,8 +169,9 @@ var pxPerUnit = map[string]float64{
 // used resolves a cascaded margin / padding value of the page box to px.  Percentages refer to the
 // size of the page sheet (the containing block of the page box): its width for the left and right
 // sides, its HEIGHT for the top and bottom sides (css-page-3 §"Page-based percentages"; CSS 2.1
-// §13.2.1), unlike ordinary boxes.  Auto margins are 0 (width and height of the page box are auto:
-// css-page-3 §5.3 rule 1).
+// §13.2.1), unlike ordinary boxes.  Auto margins are 0 here: that is their used value when the
+// width / height of the page box is auto (css-page-3 §5.3); geomFrom replaces it when the dimension
+// is declared.
 func (c cval) used(ref float64) float64 {
 	switch c.U {
 	case "auto":
@@ -186,7 +187,7 @@ func (c cval) used(ref float64) float64 {
 }
 
 // cascadePage returns the cascaded value of every longhand the rules declare for the page.
-// Keys: size-w, size-h, margin-top…, padding-top…, counter-reset, counter-increment, mbox.
+// Keys: size-w, size-h, margin-top…, padding-top…, width, height, counter-reset, counter-increment, mbox.
 // A key that no rule sets is absent (UA defaults are applied by the caller).
 func cascadePage(rules []Rule, f pageFacts, nthMode int) map[string]cval {
 	val := map[string]cval{}
@@ -216,7 +217,8 @@ func cascadePage(rules []Rule, f pageFacts, nthMode int) map[string]cval {
 				for i, s := range sides4 {
 					set(d.P+"-"+s, parseTok(d.tok(e[i])), w)
 				}
-			case "margin-top", "margin-right", "margin-bottom", "margin-left", "padding-top", "padding-right", "padding-bottom", "padding-left":
+			case "margin-top", "margin-right", "margin-bottom", "margin-left", "padding-top", "padding-right", "padding-bottom", "padding-left",
+				"width", "height":
 				set(d.P, parseTok(d.tok(0)), w)
 			default:
 				set(d.P, cval{float64(d.V[0]), "px"}, w)
@@ -240,6 +242,12 @@ type pageGeom struct {
 	MU, PU [4]string
 	SU     string
 	Square bool
+	// evidence: unit of the cascaded width / height of the page box ("" = not declared, "auto"), and
+	// how the equation of each axis was solved: "" (auto dimension: auto margins are 0), "center"
+	// (both margins auto), "first" (only margin-left / margin-top auto), "second" (only margin-right /
+	// margin-bottom auto), "over" (no auto margin: over-constrained)
+	DU    [2]string // width, height
+	Solve [2]string
 }
 
 func geomFrom(c map[string]cval) pageGeom {
@@ -265,8 +273,44 @@ func geomFrom(c map[string]cval) pageGeom {
 			g.PU[i] = v.U
 		}
 	}
-	g.W = sw - g.Margin[1] - g.Margin[3] - g.Padding[1] - g.Padding[3]
-	g.H = sh - g.Margin[0] - g.Margin[2] - g.Padding[0] - g.Padding[2]
+	// css-page-3 §5.3 "Page-box page rule calculations", for each axis
+	//   margin-a + padding-a + dimension + padding-b + margin-b = size of the page sheet
+	// (the page box has no border in the generated documents):
+	//  * dimension auto: auto margins become 0 and the dimension follows from the equality;
+	//  * dimension not auto, both margins auto: their used values are equal (the box is centred);
+	//  * dimension not auto, exactly one margin auto: it follows from the equality;
+	//  * nothing auto (over-constrained): no margin is ignored, every value is used as declared (the
+	//    containing block is resized to the margin edges of the page box instead).
+	// A percentage width / height refers to the sheet width / height.
+	solve := func(axis int, dim string, sheet float64, a, b int) float64 {
+		avail := sheet - g.Padding[a] - g.Padding[b]
+		v, ok := c[dim]
+		if ok {
+			g.DU[axis] = v.U
+		}
+		if !ok || v.U == "auto" {
+			return avail - g.Margin[a] - g.Margin[b] // auto margins are already 0
+		}
+		inner := v.used(sheet)
+		autoA, autoB := g.MU[a] == "auto", g.MU[b] == "auto"
+		switch {
+		case autoA && autoB:
+			g.Margin[a] = (avail - inner) / 2
+			g.Margin[b] = g.Margin[a]
+			g.Solve[axis] = "center"
+		case autoA:
+			g.Margin[a] = avail - inner - g.Margin[b]
+			g.Solve[axis] = "first"
+		case autoB:
+			g.Margin[b] = avail - inner - g.Margin[a]
+			g.Solve[axis] = "second"
+		default:
+			g.Solve[axis] = "over"
+		}
+		return inner
+	}
+	g.W = solve(0, "width", sw, 3, 1)
+	g.H = solve(1, "height", sh, 0, 2)
 	if v, ok := c["counter-reset"]; ok {
 		g.HasReset, g.Reset = true, int(v.N)
 	}
